@@ -1,3 +1,4 @@
+// vt-build: light
 // C15 harness: runs the real range_split / range_split_power2 / range_split_vi on an
 // exhaustive small scope and on seeded random large values, and logs, per case, everything
 // the property talks about.  One ndjson line per case; judged by spec/Trace_RangeSplit.tla.
